@@ -1,5 +1,6 @@
 import TbotVerif.Base.Bytes
-/-! Regex subset: classes, sequence, alternation, bounded greedy repetition, end-of-input.
+/-! Regex subset: classes, sequence, alternation, bounded greedy repetition, end-of-input,
+    positive look-ahead.
     `M` is a backtracking matcher with Python's priorities (left alternative first, greedy
     repetition); `L` is the denotational language.  Soundness/completeness are in
     `Props/ReProps.lean`. -/
@@ -11,6 +12,7 @@ inductive Re where
   | alt (a b : Re)
   | rep (r : Re) (lo hi : Nat)   -- r{lo,hi}, greedy
   | eos                          -- `\Z`
+  | la (r : Re)                  -- `(?=r)`: positive look-ahead, consumes nothing
   deriving Repr, BEq, Inhabited
 
 namespace Re
@@ -32,6 +34,7 @@ def noEos : Re → Bool
   | .alt a b => a.noEos && b.noEos
   | .rep r _ _ => r.noEos
   | .eos => false
+  | .la _ => false
 
 /-- upper bound on the length of a match (what `sre_parse…getwidth()[1]` reports) -/
 def maxWidth : Re → Nat
@@ -40,6 +43,7 @@ def maxWidth : Re → Nat
   | .alt a b => max a.maxWidth b.maxWidth
   | .rep r _ hi => r.maxWidth * hi
   | .eos => 0
+  | .la _ => 0      -- CPython's getwidth() counts an assertion as width 0
 
 def mrep {β} (mr : Bytes → (Bytes → Option β) → Option β) :
     Nat → Nat → Bytes → (Bytes → Option β) → Option β
@@ -61,6 +65,9 @@ def M {β} : Re → Bytes → (Bytes → Option β) → Option β
       | none => M b s k
   | .rep r lo hi, s, k => mrep (M r) lo hi s k
   | .eos, s, k => if s.isEmpty then k s else none
+  | .la r, s, k => match M (β := PUnit) r s (fun _ => some ⟨⟩) with
+      | some _ => k s
+      | none => none
 
 /-- length of the preferred match of `r` at the start of `s` -/
 def matchAt (r : Re) (s : Bytes) : Option Nat :=
@@ -76,6 +83,30 @@ def searchFrom (r : Re) : Nat → Bytes → Option (Nat × Nat)
 
 def search (r : Re) (s : Bytes) : Option (Nat × Nat) := searchFrom r 0 s
 
+/-- A leading zero-width assertion on the byte BEFORE the match (`\\b` in front of a word
+    character, `^` under MULTILINE, `(?<=[..])`, `(?<![..])`): the previous byte must satisfy the
+    class; at the very start of the searched data the assertion's value is `atStart`. -/
+structure Guard where
+  neg : Bool
+  rs : List (Byte × Byte)
+  atStart : Bool
+  deriving Repr, BEq, Inhabited
+
+def Guard.ok (g : Guard) : Option Byte → Bool
+  | none => g.atStart
+  | some c => clsMatch g.neg g.rs c
+
+/-- `re.search` for `guard ++ r`: leftmost start whose previous byte satisfies the guard and at
+    which `r` matches.  `prev` is the byte before the data still to be searched. -/
+def gsearchFrom (g : Guard) (r : Re) : Nat → Option Byte → Bytes → Option (Nat × Nat)
+  | i, prev, [] => if g.ok prev then (matchAt r []).map fun n => (i, i + n) else none
+  | i, prev, c :: t =>
+    match (if g.ok prev then matchAt r (c :: t) else none) with
+    | some n => some (i, i + n)
+    | none => gsearchFrom g r (i + 1) (some c) t
+
+def gsearch (g : Guard) (r : Re) (s : Bytes) : Option (Nat × Nat) := gsearchFrom g r 0 none s
+
 /-! ### denotational semantics -/
 
 def Lrep (L : Bytes → Prop) : Nat → Nat → Bytes → Prop
@@ -90,6 +121,7 @@ def L : Re → Bytes → Prop
   | .alt a b, w => L a w ∨ L b w
   | .rep r lo hi, w => Lrep (L r) lo hi w
   | .eos, w => w = []
+  | .la _, w => w = []
 
 /-! ### wire format (prefix notation, no blanks)
     `E` eps · `Z` eos · `S`r r · `A`r r · `R`llllhhhh r (hex) · `C`n cc (lo hi)* -/
@@ -99,6 +131,7 @@ def hex4 (n : Nat) : String := hex2 (n / 256) ++ hex2 (n % 256)
 
 def toWire : Re → String
   | .eps => "E" | .eos => "Z"
+  | .la r => "P" ++ toWire r
   | .seq a b => "S" ++ toWire a ++ toWire b
   | .alt a b => "A" ++ toWire a ++ toWire b
   | .rep r lo hi => "R" ++ hex4 lo ++ hex4 hi ++ toWire r
@@ -121,6 +154,9 @@ def parseWire : Nat → List Char → Option (Re × List Char)
   | 0, _ => none
   | _+1, 'E' :: cs => some (.eps, cs)
   | _+1, 'Z' :: cs => some (.eos, cs)
+  | f+1, 'P' :: cs => do
+    let (r, cs) ← parseWire f cs
+    pure (.la r, cs)
   | f+1, 'S' :: cs => do
     let (a, cs) ← parseWire f cs
     let (b, cs) ← parseWire f cs
